@@ -127,7 +127,24 @@ func pureOperand(v ssa.Value) (string, bool) {
 			k = "!" + k
 		}
 		return "(" + k + ")", ok
-	case *ssa.Parameter, *ssa.Extract, *ssa.Call, *ssa.Phi, *ssa.Lookup, *ssa.Field, *ssa.Index, *ssa.TypeAssert, *ssa.MakeInterface, *ssa.Convert, *ssa.ChangeType, *ssa.Slice, *ssa.Alloc, *ssa.FreeVar, *ssa.Function, *ssa.Global, *ssa.MakeClosure, *ssa.Next:
+	case *ssa.Call:
+		// errors.Is over immutable operands is a pure function: re-evaluations agree
+		if fn := x.Call.StaticCallee(); fn != nil && fn.String() == "errors.Is" && len(x.Call.Args) == 2 {
+			a, ok1 := pureOperand(x.Call.Args[0])
+			b, ok2 := pureOperand(x.Call.Args[1])
+			if !ok2 {
+				if ld, ok := x.Call.Args[1].(*ssa.UnOp); ok && ld.Op == token.MUL {
+					if g, ok := ld.X.(*ssa.Global); ok && stableGlobal(g) {
+						b, ok2 = "g:"+g.String(), true
+					}
+				}
+			}
+			if ok1 && ok2 {
+				return "errors.Is(" + a + "," + b + ")", true
+			}
+		}
+		return fmt.Sprintf("%p", v), true
+	case *ssa.Parameter, *ssa.Extract, *ssa.Phi, *ssa.Lookup, *ssa.Field, *ssa.Index, *ssa.TypeAssert, *ssa.MakeInterface, *ssa.Convert, *ssa.ChangeType, *ssa.Slice, *ssa.Alloc, *ssa.FreeVar, *ssa.Function, *ssa.Global, *ssa.MakeClosure, *ssa.Next:
 		return fmt.Sprintf("%p", v), true
 	}
 	return "", false
@@ -693,4 +710,33 @@ func constBool(v ssa.Value) (bool, bool) {
 		return val, set
 	}
 	return false, false
+}
+
+var stableGlobals = map[*ssa.Global]bool{}
+var stableGlobalsProg *Prog
+
+// stableGlobal: a package-level variable never assigned by module code outside a
+// package initialiser (error sentinels).
+func stableGlobal(g *ssa.Global) bool {
+	if v, ok := stableGlobals[g]; ok {
+		return v
+	}
+	p := stableGlobalsProg
+	ok := true
+	if p != nil {
+		for _, fn := range p.ModFuncs {
+			if fn.Name() == "init" {
+				continue
+			}
+			for _, b := range fn.Blocks {
+				for _, in := range b.Instrs {
+					if st, isSt := in.(*ssa.Store); isSt && st.Addr == ssa.Value(g) {
+						ok = false
+					}
+				}
+			}
+		}
+	}
+	stableGlobals[g] = ok
+	return ok
 }
